@@ -60,30 +60,41 @@ fn c08_with_fields() {
 }
 
 // @ob tier=quick timeout=900
-// @desc NaiveWeek: checked_first_day is the given weekday at most six days before the date, checked_last_day six days later; None only when that day is outside the supported range; checked_days spans exactly those
+// @desc NaiveWeek: checked_first_day is the given weekday at most six days before the date, checked_last_day six days after it; None only when that day is outside the supported range; checked_days spans exactly those (day distances computed on (year, ordinal) by the reference calendar)
 // @bounds all dates x all 7 start weekdays
 // @funcs NaiveDate::week, NaiveWeek::{checked_first_day, checked_last_day, checked_days}
 #[kani::proof]
 fn c08_week_bounds() {
     let dt = any_date();
+    let (y, o) = (dt.year(), dt.ordinal());
+    kani::assume(valid_yo(y, o));
     let start = any_weekday();
     let w = dt.week(start);
     let back = (7 + wd_index(dt.weekday()) - wd_index(start)) % 7; // days since the week's first day
+    let fwd = 6 - back;
     let first = w.checked_first_day();
     let last = w.checked_last_day();
     match first {
         Some(f) => {
-            assert!(f.weekday() == start && f <= dt);
-            assert!(dt.signed_duration_since(f).num_days() == back as i64);
+            assert!(f.weekday() == start);
+            if o > back {
+                assert!(f.year() == y && f.ordinal() == o - back);
+            } else {
+                assert!(f.year() == y - 1 && f.ordinal() == days_in_year(y - 1) + o - back);
+            }
         }
-        None => assert!(dt.signed_duration_since(NaiveDate::MIN).num_days() < back as i64),
+        None => assert!(y == MIN_YEAR && o <= back),
     }
     match last {
         Some(l) => {
-            assert!(l.weekday() == start.pred() && l >= dt);
-            assert!(l.signed_duration_since(dt).num_days() == 6 - back as i64);
+            assert!(l.weekday() == start.pred());
+            if o + fwd <= days_in_year(y) {
+                assert!(l.year() == y && l.ordinal() == o + fwd);
+            } else {
+                assert!(l.year() == y + 1 && l.ordinal() == o + fwd - days_in_year(y));
+            }
         }
-        None => assert!(NaiveDate::MAX.signed_duration_since(dt).num_days() < 6 - back as i64),
+        None => assert!(y == MAX_YEAR && o + fwd > days_in_year(y)),
     }
     match w.checked_days() {
         Some(r) => assert!(Some(*r.start()) == first && Some(*r.end()) == last),
